@@ -59,8 +59,8 @@ func init() {
 				Rule: "chunk counts and lengths up to 2^30-1, lengths past EOF, palettes of every format cut short, unknown identifiers, repeated and out-of-order chunks",
 				Min:  map[string]int64{"inputs": 30000, "rejected": 10000, "lengths_wrong_by_a_power_of_256": 3000}},
 			{Name: "huge-runs", N: big(24, 96), Run: c02Huge, CaseCPU: 60,
-				Rule: "inputs of 5..9 MiB that consist of one short instruction repeated millions of times (selector opcodes, 1-byte register writes, empty paths): decoded into a counting Destination and by DecodeViewBox; depth of recursion, stack and memory must not grow with the input",
-				Min:  map[string]int64{"huge_inputs": 16, "calls_delivered": 50_000_000}},
+				Rule: "inputs of 5..9 MiB that consist of one short instruction repeated millions of times (selector opcodes, 1-byte register writes, empty paths; one path holding a single run of millions of H/h/V/v or line operations): decoded into a counting Destination and by DecodeViewBox, the single runs also into an Encoder and a Renderer; depth of recursion, stack, memory and CPU time (the per-case limit of 60 CPU-seconds is about a hundred times what the unchanged tree needs) must not grow faster than the input",
+				Min:  map[string]int64{"huge_inputs": 16, "calls_delivered": 50_000_000, "huge_runs_of_one_drawing_operation": 6}},
 			{Name: "race-checkptr", N: big(0, 400_000), Run: c02Generated, Race: true, CaseCPU: 40,
 				Rule: "the generated family again under the -race build (which enables checkptr instrumentation)"},
 		},
@@ -523,6 +523,11 @@ func (d *countDest) SetNReg(adj uint8, incr bool, f float32)   { d.n++ }
 func (d *countDest) StartPath(adj uint8, x, y float32)         { d.n++ }
 func (d *countDest) ClosePathEndPath()                         { d.n++ }
 func (d *countDest) Reset(vb ivg.ViewBox, pal [64]color.RGBA)  { d.n++ }
+func (d *countDest) AbsHLineTo(x float32)                      { d.n++ }
+func (d *countDest) RelHLineTo(x float32)                      { d.n++ }
+func (d *countDest) AbsVLineTo(y float32)                      { d.n++ }
+func (d *countDest) RelVLineTo(y float32)                      { d.n++ }
+func (d *countDest) AbsLineTo(x, y float32)                    { d.n++ }
 
 // c02Huge decodes one very long, very regular input.
 func c02Huge(c *run.Ctx, idx uint64) {
@@ -530,8 +535,18 @@ func c02Huge(c *run.Ctx, idx uint64) {
 	n := r.Range(5<<20, 9<<20)
 	b := make([]byte, 0, n+16)
 	b = append(b, "\x89IVG\x00"...)
-	var unit []byte
-	switch idx % 4 {
+	var unit, prefix, suffix []byte
+	kind := idx % 6
+	switch kind {
+	case 4:
+		// one path that holds a single run of millions of one drawing operation
+		// (H, h, V or v: the Encoder writes them one per opcode)
+		prefix, suffix = []byte{0xc0, 0x80, 0x80}, []byte{0xe1}
+		unit = []byte{byte(0xe6 + r.Intn(4)), byte(0x80 + 2*r.Intn(8))}
+	case 5:
+		// the same with lines (the Encoder writes them in chunks of up to 32)
+		prefix, suffix = []byte{0xc0, 0x80, 0x80}, []byte{0xe1}
+		unit = []byte{0x00, byte(0x80 + 2*r.Intn(8)), byte(0x80 + 2*r.Intn(8))}
 	case 0:
 		unit = []byte{byte(r.Intn(0x80))} // one selector opcode, CSEL or NSEL
 	case 1:
@@ -541,11 +556,17 @@ func c02Huge(c *run.Ctx, idx uint64) {
 	default:
 		unit = []byte{0xc0, 0x80, 0x80, 0xe1} // an empty path
 	}
-	for len(b)+len(unit) <= n {
+	b = append(b, prefix...)
+	for len(b)+len(unit)+len(suffix) <= n {
 		b = append(b, unit...)
 	}
-	perUnit := []int{1, 2, 1, 2}[idx%4] // calls one unit stands for
-	want := int64(1 + perUnit*((len(b)-5)/len(unit)))
+	b = append(b, suffix...)
+	perUnit := []int{1, 2, 1, 2, 1, 1}[kind] // calls one unit stands for
+	want := int64(1 + perUnit*((len(b)-5-len(prefix)-len(suffix))/len(unit)))
+	if kind >= 4 {
+		want += 2 // StartPath and ClosePathEndPath
+		c.Count("huge_runs_of_one_drawing_operation", 1)
+	}
 	c.Count("huge_inputs", 1)
 	c.Count("inputs", 1)
 	c.Eval(run.Hash64(idx, uint64(len(b)), uint64(unit[0])), true)
@@ -558,6 +579,46 @@ func c02Huge(c *run.Ctx, idx uint64) {
 	if err != nil || d.n != want {
 		c.Violate("huge-input-not-decoded-call-by-call", map[string]interface{}{"unit": hx(unit), "bytes": len(b), "error": errStr(err), "calls": d.n, "expected_calls": want})
 		return
+	}
+	if kind >= 4 {
+		// the same input into an Encoder (which buffers runs before writing them)
+		// and into a Renderer over the recording rasterizer: terminates (the
+		// driver's per-case CPU limit decides), output and activity linear
+		var out []byte
+		if !c.Guard("Decode(huge run, Encoder)", nil, func() {
+			var e encode.Encoder
+			if err = decode.Decode(&e, b); err == nil {
+				out, err = e.Bytes()
+			}
+		}) {
+			return
+		}
+		if err != nil || len(out) > 5*len(b)+16 || len(out) < len(b)/8 {
+			c.Violate("huge-run-not-transcoded", map[string]interface{}{"unit": hx(unit), "bytes": len(b), "error": errStr(err), "output_bytes": len(out)})
+			return
+		}
+		rz := &rec.Raster{Discard: true, Cap: 4*len(b) + 8}
+		capped := false
+		if !c.Guard("Decode(huge run, Renderer)", nil, func() {
+			var z render.Renderer
+			z.SetRasterizer(rz, image.Rect(0, 0, 64, 64))
+			defer func() {
+				if p := recover(); p != nil {
+					if _, ok := p.(rec.ActivityCapExceeded); ok {
+						capped = true
+						return
+					}
+					panic(p)
+				}
+			}()
+			err = decode.Decode(&z, b)
+		}) {
+			return
+		}
+		if err != nil || capped || int64(rz.NMut) < want-3 {
+			c.Violate("huge-run-not-rendered-call-by-call", map[string]interface{}{"unit": hx(unit), "bytes": len(b), "error": errStr(err), "raster_calls": rz.NMut, "capped": capped})
+			return
+		}
 	}
 	if !c.Guard("DecodeViewBox(huge input)", nil, func() { _, err = decode.DecodeViewBox(b) }) {
 		return
